@@ -22,6 +22,7 @@ import (
 	"strconv"
 	"strings"
 	"sync"
+	"sync/atomic"
 	"syscall"
 	"time"
 )
@@ -29,9 +30,9 @@ import (
 const (
 	c11WorkerMem     = 3 << 29 // RLIMIT_AS of a worker: 1.5 GiB (the Go runtime alone needs most of 1 GiB of address space)
 	c11CallTimeout   = 6 * time.Second
-	c11RunawayInUse  = 192 << 20 // heap in use at an out-of-memory death above which it was not one hostile request
+	c11RunawayInUse  = 192 << 20 // heap in use at an out-of-memory death below which it was one hostile request
+	c11RunawayLevels = 3         // heap doublings observed during the case from which on the growth was gradual
 	c11MaxInputBytes = 1 << 20
-	c11RunawayAfter  = 2 * time.Second
 )
 
 // c11Outcome is the result of one case.
@@ -46,6 +47,7 @@ type c11Outcome struct {
 	N      int         `json:"n,omitempty"` // values decoded without error
 	T      int64       `json:"t,omitempty"` // wall time of the case in the worker, microseconds
 	Solo   bool        `json:"solo,omitempty"`
+	Exit   bool        `json:"x,omitempty"`    // the worker exits after this answer (a goroutine of the case is still running)
 	SCanon string      `json:"sc,omitempty"`   // canonical value computed by the accessor sweep
 	More   [][2]string `json:"more,omitempty"` // further accessor panics of the same sweep (site, message)
 }
@@ -58,6 +60,9 @@ func c11RunCase(dec *c11Decoder, in []byte) (out c11Outcome, poisoned bool) {
 	o := guardTimeout(c11CallTimeout, func() { v, err = dec.decode(in) })
 	switch {
 	case o.timedOut:
+		if c11MemoryBound() {
+			return c11Outcome{D: "oom", DMsg: "no answer within the watchdog while holding at least 128 MiB"}, true
+		}
 		return c11Outcome{D: "timeout"}, true
 	case o.panicked:
 		return c11Outcome{D: "panic", DSite: c11Site(o.stack), DMsg: o.panicVal}, false
@@ -73,6 +78,10 @@ func c11RunCase(dec *c11Decoder, in []byte) (out c11Outcome, poisoned bool) {
 	o = guardTimeout(c11CallTimeout, v.sweep)
 	switch {
 	case o.timedOut:
+		if c11MemoryBound() {
+			out.A = "oom"
+			return out, true
+		}
 		out.A = "timeout"
 		return out, true
 	case o.panicked:
@@ -106,6 +115,47 @@ var c11HeapSample = []metrics.Sample{{Name: "/memory/classes/heap/objects:bytes"
 func c11HeapBytes() uint64 {
 	metrics.Read(c11HeapSample)
 	return c11HeapSample[0].Value.Uint64() + c11HeapSample[1].Value.Uint64()
+}
+
+// c11CaseNo counts the cases of this worker (1-based); the heap sampler tags its lines with it.
+var c11CaseNo atomic.Int64
+
+// c11PeakLevel is the highest heap level (1 = 32 MiB, 2 = 64 MiB, 3 = 128 MiB, ...) the sampler saw during
+// the current case.
+var c11PeakLevel atomic.Int64
+
+// c11MemoryBound: the case held at least 128 MiB.  A watchdog expiry of such a case is counted with the
+// memory-bound inputs (`oom`, not judged): clearing and page-faulting hundreds of megabytes takes
+// seconds on a loaded machine, which is not a hang of the decoder.
+func c11MemoryBound() bool { return c11PeakLevel.Load() >= 3 }
+
+// c11HeapSampler writes "C11-HEAP <case> <level>" to stderr whenever the heap in use crosses a new
+// power of two (from 32 MiB) during a case.  One hostile length field jumps over all levels at once
+// (one or two lines); a loop that allocates without bound climbs them one by one.  The parent counts
+// the lines of the case a worker died on.  Starvation of this goroutine only loses lines.
+func c11HeapSampler() {
+	sample := []metrics.Sample{{Name: "/memory/classes/heap/objects:bytes"}}
+	var lastCase int64
+	lastLevel := 0
+	for {
+		time.Sleep(2 * time.Millisecond)
+		metrics.Read(sample)
+		mb := sample[0].Value.Uint64() >> 20
+		level := 0
+		for m := mb >> 5; m > 0; m >>= 1 {
+			level++
+		}
+		cs := c11CaseNo.Load()
+		if cs != lastCase {
+			lastCase, lastLevel = cs, 0
+			c11PeakLevel.Store(0)
+		}
+		if level > lastLevel {
+			lastLevel = level
+			c11PeakLevel.Store(int64(level))
+			fmt.Fprintf(os.Stderr, "C11-HEAP %d %d\n", cs, level)
+		}
+	}
 }
 
 // c11Site is the panic site: the top frame inside the repository, and (when different) the library
@@ -153,6 +203,7 @@ func c11WorkerMain(c *ctx) {
 	in := bufio.NewReaderSize(os.Stdin, 1<<20)
 	out := bufio.NewWriter(os.Stdout)
 	enc := json.NewEncoder(out)
+	go c11HeapSampler()
 	for {
 		line, err := in.ReadString('\n')
 		if len(line) > 0 {
@@ -176,8 +227,10 @@ func c11WorkerMain(c *ctx) {
 				}
 			}
 			t0 := time.Now()
+			c11CaseNo.Add(1)
 			res, poisoned := c11RunCase(dec, data)
 			res.T = time.Since(t0).Microseconds()
+			res.Exit = poisoned
 			if res.T > 5000 && c11HeapBytes() > 96<<20 {
 				// a large allocation was left behind: do not let it distort the next cases
 				debug.FreeOSMemory()
@@ -227,15 +280,16 @@ type c11Pool struct {
 var c11OOMRe = regexp.MustCompile(`cannot allocate (\d+)-byte block \((\d+) in use\)`)
 
 // classifyDeath turns the stderr of a dead worker into an outcome for the case it was running.
-func c11ClassifyDeath(stderr string, elapsed time.Duration) c11Outcome {
+func c11ClassifyDeath(stderr string, caseNo int) c11Outcome {
+	levels := strings.Count(stderr, fmt.Sprintf("C11-HEAP %d ", caseNo))
 	switch {
 	case strings.Contains(stderr, "out of memory") || strings.Contains(stderr, "cannot allocate memory") ||
 		strings.Contains(stderr, "failed to allocate"):
 		if m := c11OOMRe.FindStringSubmatch(stderr); m != nil {
 			inUse, _ := strconv.ParseInt(m[2], 10, 64)
-			// one hostile length field is refused at once; memory that grew for seconds before the
-			// refusal is a loop that allocates without bound
-			if inUse >= c11RunawayInUse && elapsed >= c11RunawayAfter {
+			// one hostile length field (or two) is refused after one or two jumps of the heap; memory that
+			// climbed through many doublings before the refusal is a loop that allocates without bound
+			if inUse >= c11RunawayInUse && levels >= c11RunawayLevels {
 				return c11Outcome{D: "runaway", DSite: c11FatalFrame(stderr), DMsg: "out of memory after growing to " + m[2] + " bytes in use (request " + m[1] + ")"}
 			}
 			return c11Outcome{D: "oom", DMsg: "request of " + m[1] + " bytes"}
@@ -343,7 +397,6 @@ func (p *c11Pool) runOnce(cases []c11Case, outs []c11Outcome) (int, *c11Death) {
 	}()
 	rd := bufio.NewReaderSize(stdout, 1<<20)
 	done := 0
-	lastAnswer := time.Now()
 	timedOut := false
 	for done < len(cases) {
 		type rl struct {
@@ -373,8 +426,7 @@ func (p *c11Pool) runOnce(cases []c11Case, outs []c11Outcome) (int, *c11Death) {
 		}
 		outs[done] = o
 		done++
-		lastAnswer = time.Now()
-		if o.D == "timeout" || o.A == "timeout" {
+		if o.Exit || o.D == "timeout" || o.A == "timeout" {
 			// the worker exits after answering
 			io.Copy(io.Discard, rd)
 			cmd.Wait()
@@ -396,7 +448,7 @@ func (p *c11Pool) runOnce(cases []c11Case, outs []c11Outcome) (int, *c11Death) {
 	if timedOut {
 		return done, &c11Death{out: c11Outcome{D: "timeout", DMsg: "worker killed by the parent watchdog"}}
 	}
-	return done, &c11Death{out: c11ClassifyDeath(errb.String(), time.Since(lastAnswer))}
+	return done, &c11Death{out: c11ClassifyDeath(errb.String(), done+1)}
 }
 
 // runAll distributes the cases over p.n workers (deterministic result order).
